@@ -1,5 +1,5 @@
 (* CheckC06.v — executable comparison for C06 *)
-From MQ Require Import Base Codec Inbound Parse ParseSpec ParsePending.
+From MQ Require Import Base Codec Inbound Parse ParseSpec ParsePending ParseExit.
 Open Scope N_scope.
 
 Inductive parse_obs :=
@@ -93,7 +93,11 @@ Definition stream_ok (c : stream_case) : bool :=
   let '(h, s, survived, maxread, err, closed_ok, evs) := c in
   survived && (maxread <=? max_packet) && closed_ok
   && (if has_malformed s then err_is is_protocol_error err else err_is is_eof err)
-  && no_nul_delivered evs.
+  && no_nul_delivered evs
+  (* the well-formed packets before the malformed one are processed normally: hand-overs (topic,
+     identifier, flags and payload BYTES of the recorded copy) and acknowledgements are those the
+     abstract receiver prescribes for the packets as they were sent *)
+  && list_eqb in_event_eqb evs (expected_events h s).
 
 Definition stream_model_ok (c : stream_case) : bool :=
   let '(h, s, survived, maxread, err, closed_ok, evs) := c in
@@ -189,8 +193,8 @@ Definition inflight_ok (c : inflight_case) : bool :=
   let '(h, reqs, s, alive, err, closed_ok, evs, rs, rels) := c in
   alive && closed_ok && results_sane reqs rs && no_nul_delivered evs &&
   match first_bad (S (length s)) (sub_waiters (mk_pending 0 reqs)) s with
-  | NoBad => err_is is_eof err
-  | BadMalformed => err_is is_protocol_error err
+  | NoBad => err_is is_eof err && list_eqb in_event_eqb evs (expected_events h s)
+  | BadMalformed => err_is is_protocol_error err && list_eqb in_event_eqb evs (expected_events h s)
   | BadCount j => err_is (fun _ => true) err
                   && match nth_error rs j with Some OR_invalid_suback => true | _ => false end
   end.
@@ -223,3 +227,65 @@ Definition c06_inflight_violations (cs : list inflight_case) : list nat :=
   first_indices (fun c => negb (inflight_ok c)) cs.
 Definition c06_inflight_mismatches (cs : list inflight_case) : list nat :=
   first_indices (fun c => let '(_, _, _, alive, _, _, _, _, _) := c in alive && negb (inflight_model_ok c)) cs.
+
+(* ---------- the end of the link on a transport whose Close() blocks ---------- *)
+(* (handler, stream, survived and nothing stuck, Done() already closed when Transport.Close() was
+   entered, Done() seen closed while Close() was held, Err() at Close entry, Err() sampled right
+   after Done() was seen closed, the Closed callback as delivered by then) *)
+Definition exit_case :=
+  (bool * list N * bool * bool * bool * option perr * option perr * option (option perr))%type.
+
+(* "a malformed packet ends the connection with an error observable through Err() and the state
+   callback": when the end of the link is announced (Done() closed) the error is in Err() and the
+   callback has delivered it; Done() is not closed while the transport is still being closed *)
+Definition exit_ok (c : exit_case) : bool :=
+  let '(h, s, alive, done_at_entry, done_while_held, err_at_entry, err_at_done, reported) := c in
+  alive && negb done_at_entry && negb done_while_held
+  && (if has_malformed s then err_is is_protocol_error err_at_done else err_is is_eof err_at_done)
+  && option_eqb (option_eqb perr_eqb) reported (Some err_at_done).
+
+Definition exit_model_ok (c : exit_case) : bool :=
+  let '(h, s, alive, done_at_entry, done_while_held, err_at_entry, err_at_done, reported) := c in
+  match snd (serve h s) with
+  | EndErr e =>
+      match state_at_close link0 (exit_steps e), state_at_done link0 (exit_steps e) with
+      | Some lc, Some ld =>
+          Bool.eqb done_at_entry (lk_done lc) && Bool.eqb done_while_held (lk_done lc)
+          && option_eqb perr_eqb err_at_entry (lk_err lc)
+          && option_eqb perr_eqb err_at_done (lk_err ld)
+          && option_eqb (option_eqb perr_eqb) reported (lk_reported ld)
+      | _, _ => false
+      end
+  | _ => false
+  end.
+
+Definition c06_exit_violations (cs : list exit_case) : list nat := first_indices (fun c => negb (exit_ok c)) cs.
+Definition c06_exit_mismatches (cs : list exit_case) : list nat :=
+  first_indices (fun c => let '(_, _, alive, _, _, _, _, _) := c in alive && negb (exit_model_ok c)) cs.
+
+(* ---------- bytes allocated for one big packet that really arrives ---------- *)
+(* (fixed header incl. the length field, body length as generated, survived and the message was
+   delivered intact, runtime.MemStats.TotalAlloc difference around the packet) *)
+Definition alloc_case := (list N * N * bool * N)%type.
+Definition alloc_slack : N := 1048576.
+
+(* "never allocates more than the protocol's maximum packet size for one packet" *)
+Definition alloc_ok (c : alloc_case) : bool :=
+  let '(hdr, nbody, ok, delta) := c in ok && (delta <=? max_packet + alloc_slack).
+
+(* the model requests exactly one buffer of the announced size: the implementation allocates at
+   least that (sound lower bound) and at most that plus the slack *)
+Definition alloc_model_ok (c : alloc_case) : bool :=
+  let '(hdr, nbody, ok, delta) := c in
+  match hdr with
+  | _ :: l0 :: r =>
+      match read_len 0 0 l0 r with
+      | Ok (n, []) => (n =? nbody) && (n <=? delta) && (delta <=? n + alloc_slack)
+      | _ => false
+      end
+  | _ => false
+  end.
+
+Definition c06_alloc_violations (cs : list alloc_case) : list nat := first_indices (fun c => negb (alloc_ok c)) cs.
+Definition c06_alloc_mismatches (cs : list alloc_case) : list nat :=
+  first_indices (fun c => let '(_, _, ok, _) := c in ok && negb (alloc_model_ok c)) cs.
